@@ -1,53 +1,56 @@
 /* UNIT
 {
  "id": "MAP.putget.bnd",
- "file": "map.c", "function": "mapput", "also_functions": ["mapget", "mapinit", "keyindex", "keyequal", "hash", "mapkey"],
+ "file": "map.c", "function": "mapput", "also_functions": ["mapget", "keyindex", "keyequal", "mapkey"],
  "properties": {"C16": "contract", "C19": "safety"},
  "mode": "harness",
  "replace_calls": {"hash": "uf_hash", "memcmp": "verif_memcmp2"},
  "kind": "bounded",
- "bound": "initial capacity in {4,8}; 4 put/overwrite operations, each followed by a get of an arbitrary key; keys of 0..2 arbitrary bytes; hash() replaced by an arbitrary (uninterpreted) function of the key bytes",
- "cflags": ["-DNOPS=4", "-DVERIF_OWN_XMALLOC"],
- "variants": {"cap4": ["-DV_CAP=4"], "cap8": ["-DV_CAP=8"]},
- "canary_variant": "cap4",
- "unwindset": ["keyindex.0:9", "mapinit.0:9", "mapput.0:9", "mapput.1:5", "model_get.0:5", "model_distinct.0:5", "model_distinct.1:5"],
+ "bound": "ONE mapput (+ store) or ONE mapget on EVERY well-formed table of capacity 4 or 8 (any occupancy up to cap/2+1, any keys of 0..2 bytes, any 64-bit hash values, any probe/collision/wrap-around layout); growth 4->8 and 8->16 included. Inductive: the post-state is again well-formed, so sequences of any length are covered while the capacity stays <= 8 before the operation",
+ "cflags": ["-DVERIF_OWN_XMALLOC"],
+ "variants": {"put4": ["-DV_CAP=4", "-DV_PUT=1"], "put8": ["-DV_CAP=8", "-DV_PUT=1"], "get4": ["-DV_CAP=4", "-DV_PUT=0"], "get8": ["-DV_CAP=8", "-DV_PUT=0"]},
+ "canary_variant": "put4",
+ "unwindset": ["uf_hash.0:11", "uf_peek.0:11", "keyindex.0:17", "mapput.0:17", "mapput.1:9", "build.0:9", "inv_pre.0:9", "inv_pre.1:9", "inv_pre.2:9", "lookup_pre.0:9", "lookup_now.0:17", "count_now.0:17"],
  "timeout": 300, "mem_gb": 8,
- "tiers": {"thorough": {"cflags": ["-DNOPS=6", "-DVERIF_OWN_XMALLOC"], "timeout": 3000,
-            "unwindset": ["keyindex.0:17", "mapinit.0:9", "mapput.0:17", "mapput.1:9", "model_get.0:7", "model_distinct.0:7", "model_distinct.1:7"],
-            "bound": "initial capacity in {4,8}; 6 put/overwrite operations (table grows up to 16 slots), each followed by a get of an arbitrary key; keys of 0..2 arbitrary bytes; hash() replaced by an arbitrary (uninterpreted) function of the key bytes"}},
- "expects": ["assertion_verif", "assertion_repo", "pointer_dereference"],
- "assumes": ["xreallocarray does not fail (stubs/base.c)",
-             "initial capacity >= 4 (call sites use 8, 32, 64): with capacity 1 or 2 the table can become full (growth happens only when len > cap/2 BEFORE an insertion) and a lookup of an absent key then probes forever",
-             "hash() is a deterministic function of (len, the len key bytes): it is replaced by an uninterpreted function of them, which covers the real FNV-1a loop and every other hash",
-             "values are opaque non-null pointers; key bytes stay alive and unmodified while the key is in the table (all clients pass interned strings / literal data)"]
+ "expects": ["assertion_verif", "pointer_dereference"],
+ "assumes": ["hash() is a deterministic function of (len, the len key bytes): it is replaced by an uninterpreted function of them (fresh value per call unless the same bytes were hashed before), which covers the real FNV-1a loop and every other hash; with the real 64-bit multiplications two operations were undecided after 170 s",
+             "memcmp for n <= 2 modelled by two byte comparisons (CBMC's library loop replaced)",
+             "xreallocarray does not fail",
+             "capacity >= 4 (call sites use 8, 32, 64): with capacity 1 or 2 the table can become FULL (growth is decided before the insertion, when len > cap/2) and a lookup of an absent key then probes forever",
+             "key bytes stay alive and unmodified while the key is in the table (clients pass interned identifiers / literal data)"]
 }
 */
 /*
- * C16: the name table behaves like a dictionary.  Reference model: the list of all put operations so far; the value
- * bound to a key is the one of the LAST put with a byte-equal key, NULL if there is none; the number of entries is
- * the number of distinct keys put.  Every key is 0..2 arbitrary bytes, so the SAT solver - not the harness - chooses
- * which keys are equal, which collide in the low hash bits at every table size, and which probe sequences wrap around
- * the end of the table.  Starting from capacity 4 the table doubles (once at 4 operations, twice at 6) within the bound, so every
- * rehash has to preserve the bindings.
+ * C16: the name table behaves like a dictionary, however the hashes collide.
+ *
+ * Well-formed table (INV), the representation invariant of open addressing with linear probing and no deletion:
+ *   I1  cap is a power of two, len == number of occupied slots, len <= cap/2 + 1   (so an empty slot exists)
+ *   I2  every occupied slot holds a key of <= 2 bytes whose stored hash is the hash of its bytes
+ *   I3  for an occupied slot j with home = hash & (cap-1): every slot in the cyclic interval [home, j) is occupied
+ *   I4  no two occupied slots hold byte-equal keys
+ * The pre-state is EVERY table satisfying INV (built from scalar inputs: per slot occupied/len/bytes/hash/value), which
+ * is a superset of the reachable ones.  Reference semantics: lookup(q) = value of the slot holding a key byte-equal
+ * to q, NULL if there is none (a scan, independent of probing).
+ *   put:  slot = mapput(h, k); *slot = v   ==>  lookup'(q) == (q == k ? v : lookup(q)) for an arbitrary key q,
+ *         *slot before the store == lookup(k), len' == len + (k absent), INV' (so the next operation starts from a
+ *         well-formed table again), bindings survive the rehash when the table doubles.
+ *   get:  mapget(h, q) == lookup(q), table unchanged.
  */
 #include "map.c"
 #include "verif.h"
 
-#ifndef NOPS
-#define NOPS 4
-#endif
 #ifndef V_CAP
 #define V_CAP 4
 #endif
-
-static struct map t_map;
+#ifndef V_PUT
+#define V_PUT 1
+#endif
+#define CAP V_CAP
+#define MAXCAP (2 * CAP)
 
 #ifndef VERIF_REPLAY
-/*
- * Allocation: the requested capacity depends on how many of the symbolic keys are distinct; a heap object of symbolic
- * size sends CBMC into its unbounded-array theory (19 M variables at 3 operations).  Case-split on the element count
- * instead: every object then has a constant size and the bounds checks stay exact.
- */
+/* constant-size allocations by case split on the element count (a heap object of symbolic size sends CBMC into its
+   unbounded-array theory); bounds checks stay exact */
 void *
 xmalloc(size_t n)
 {
@@ -62,27 +65,18 @@ xreallocarray(void *buf, size_t n, size_t m)
 	void *p = 0;
 
 	__CPROVER_assert(buf == 0, "map.c only allocates fresh arrays");
-	if (n == 4)
-		p = malloc(4 * m);
-	else if (n == 8)
-		p = malloc(8 * m);
-	else if (n == 16)
-		p = malloc(16 * m);
+	if (n == CAP)
+		p = malloc(CAP * m);
+	else if (n == MAXCAP)
+		p = malloc(MAXCAP * m);
 	else
-		__CPROVER_assert(0, "capacity within the bound of this unit");
+		__CPROVER_assert(0, "capacity stays or doubles");
 	__CPROVER_assume(p != 0);
 	return p;
 }
 #endif
 
-/*
- * hash() is replaced by an UNINTERPRETED function of (len, bytes): a fresh arbitrary value per call, except that  Byte-equal keys get the
- * the same hash as before; everything else is left to the solver, so the dictionary property is shown for EVERY deterministic hash
- * function - the real FNV-1a loop being one of them (its two 64-bit multiplications per key made 2 operations
- * undecidable in 170 s).  What is used about the real hash(): it is a function of the len bytes only (MAP.hash: it
- * assigns nothing and reads exactly those bytes).
- */
-/* memcmp for n <= 2 without CBMC's byte loop (replaces the library model; the native replay uses libc) */
+/* memcmp for n <= 2 without CBMC's byte loop */
 int
 verif_memcmp2(const void *a, const void *b, size_t n)
 {
@@ -96,10 +90,12 @@ verif_memcmp2(const void *a, const void *b, size_t n)
 	return 0;
 }
 
-#define UFMAX (2 * NOPS)
-static struct { size_t len; unsigned char b[2]; unsigned long val; } g_uf[UFMAX];
+/* ---- the uninterpreted hash: a log of (bytes -> value); a new byte string gets a fresh arbitrary value */
+#define UFMAX (CAP + 2)
+static struct { size_t len; unsigned char b0, b1; unsigned long val; } g_uf[UFMAX];
 static unsigned g_ufn;
 unsigned long nondet_hashval(void);
+
 unsigned long
 uf_hash(const void *ptr, size_t len)
 {
@@ -109,131 +105,270 @@ uf_hash(const void *ptr, size_t len)
 	unsigned i;
 
 	__CPROVER_assert(len <= 2, "keys of at most 2 bytes");
-	__CPROVER_assert(g_ufn < UFMAX, "hash is called once per operation");
+	__CPROVER_assert(g_ufn < UFMAX, "hash log large enough");
 	b0 = len >= 1 ? p[0] : 0;
 	b1 = len >= 2 ? p[1] : 0;
-	/* same bytes as an earlier call => same value (Ackermann expansion of the uninterpreted function) */
 	for (i = 0; i < g_ufn; ++i) {
-		if (g_uf[i].len == len && g_uf[i].b[0] == b0 && g_uf[i].b[1] == b1) {
+		if (g_uf[i].len == len && g_uf[i].b0 == b0 && g_uf[i].b1 == b1) {
 			v = g_uf[i].val;
 			break;
 		}
 	}
-	g_uf[g_ufn].len = len; g_uf[g_ufn].b[0] = b0; g_uf[g_ufn].b[1] = b1; g_uf[g_ufn].val = v;
+	g_uf[g_ufn].len = len; g_uf[g_ufn].b0 = b0; g_uf[g_ufn].b1 = b1; g_uf[g_ufn].val = v;
 	++g_ufn;
 	return v;
 }
 
-/* reference model */
-static unsigned char m_kb[NOPS][2];
-static size_t m_kl[NOPS];
-static void *m_kv[NOPS];
-static unsigned m_n;
-/* ghost observations for the canary */
-bool g_wrapped, g_grew;
-
-#define KEQ(l, b0, b1, s) (m_kl[s] == (l) && ((l) < 1 || m_kb[s][0] == (b0)) && ((l) < 2 || m_kb[s][1] == (b1)))
-
-static void *
-model_get(size_t l, unsigned char b0, unsigned char b1)
+/* is `val` the logged hash of these bytes? */
+static bool
+uf_peek(size_t len, unsigned char b0, unsigned char b1, unsigned long val)
 {
-	unsigned s;
+	unsigned i;
+
+	for (i = 0; i < g_ufn; ++i) {
+		if (g_uf[i].len == len && g_uf[i].b0 == (len >= 1 ? b0 : 0) && g_uf[i].b1 == (len >= 2 ? b1 : 0))
+			return g_uf[i].val == val;
+	}
+	return false;
+}
+
+/* ---- pre-state, from scalar inputs */
+struct slotdesc { bool occ; size_t len; unsigned char b0, b1; unsigned long hash; void *val; };
+static struct slotdesc t_pre[CAP];
+static unsigned char t_kb[CAP + 1][2];      /* key bytes of the slots; [CAP]: the key of the operation */
+static struct map t_map;
+static struct mapkey *t_keys0;
+static void **t_vals0;
+
+#define BEQ(l1, a1, c1, l2, a2, c2) ((l1) == (l2) && ((l1) < 1 || (a1) == (a2)) && ((l1) < 2 || (c1) == (c2)))
+#define KB(k, i) (((const unsigned char *)(k).str)[i])
+
+static void
+build(void)
+{
+	struct map *h = &t_map;
+	size_t j, n = 0;
+
+	h->cap = CAP;
+	h->keys = malloc(CAP * sizeof(h->keys[0]));
+	h->vals = malloc(CAP * sizeof(h->vals[0]));
+	__CPROVER_assume(h->keys != 0 && h->vals != 0);
+	for (j = 0; j < CAP; ++j) {
+		t_kb[j][0] = t_pre[j].b0; t_kb[j][1] = t_pre[j].b1;
+		h->keys[j].str = t_pre[j].occ ? (const void *)&t_kb[j][0] : (const void *)0;
+		h->keys[j].len = t_pre[j].len;
+		h->keys[j].hash = t_pre[j].hash;
+		h->vals[j] = t_pre[j].val;
+		n += t_pre[j].occ;
+	}
+	h->len = n;
+	t_keys0 = h->keys;
+	t_vals0 = h->vals;
+}
+
+static bool
+inv_pre(void)
+{
+	size_t j, i, d;
+	bool ok = true;
+
+	ok = ok && t_map.len <= CAP / 2 + 1;                                                     /* I1 */
+	for (j = 0; j < CAP; ++j) {
+		if (!t_pre[j].occ)
+			continue;
+		if (t_pre[j].len > 2)                                                                /* I2 */
+			ok = false;
+		for (d = 0; d < CAP; ++d) {                                                          /* I3 */
+			i = (t_pre[j].hash + d) & (CAP - 1);
+			if (i == j)
+				break;
+			if (!t_pre[i].occ)
+				ok = false;
+		}
+		for (i = 0; i < j; ++i) {                                                            /* I4 */
+			if (t_pre[i].occ && BEQ(t_pre[i].len, t_pre[i].b0, t_pre[i].b1, t_pre[j].len, t_pre[j].b0, t_pre[j].b1))
+				ok = false;
+		}
+	}
+	return ok;
+}
+
+/* reference semantics on the pre-state description */
+static bool g_found_pre;
+static void *
+lookup_pre(size_t l, unsigned char a, unsigned char c)
+{
+	size_t j;
 	void *v = 0;
 
-	for (s = 0; s < m_n; ++s) {
-		if (KEQ(l, b0, b1, s))
-			v = m_kv[s];
+	g_found_pre = false;
+	for (j = 0; j < CAP; ++j) {
+		if (t_pre[j].occ && BEQ(t_pre[j].len, t_pre[j].b0, t_pre[j].b1, l, a, c)) {
+			v = t_pre[j].val;
+			g_found_pre = true;
+		}
+	}
+	return v;
+}
+
+/* reference semantics on the table as it is in memory now */
+static void *
+lookup_now(size_t l, unsigned char a, unsigned char c)
+{
+	struct map *h = &t_map;
+	size_t j;
+	void *v = 0;
+
+	for (j = 0; j < h->cap; ++j) {
+		if (h->keys[j].str && BEQ(h->keys[j].len, h->keys[j].len >= 1 ? KB(h->keys[j], 0) : 0, h->keys[j].len >= 2 ? KB(h->keys[j], 1) : 0, l, a, c))
+			v = h->vals[j];
 	}
 	return v;
 }
 
 static size_t
-model_distinct(void)
+count_now(void)
 {
-	unsigned s, t;
-	size_t n = 0;
+	size_t j, n = 0;
 
-	for (s = 0; s < m_n; ++s) {
-		bool first = true;
-		for (t = 0; t < s; ++t) {
-			if (KEQ(m_kl[s], m_kb[s][0], m_kb[s][1], t))
-				first = false;
-		}
-		n += first;
-	}
+	for (j = 0; j < t_map.cap; ++j)
+		n += t_map.keys[j].str != 0;
 	return n;
 }
 
-static void
-step_put(unsigned s, size_t l, unsigned char b0, unsigned char b1, unsigned char v)
-{
-	struct map *h = &t_map;
-	struct mapkey k;
-	void **slot, *old;
-	size_t cap0 = h->cap, home;
+/* ---- ghosts */
+size_t g_kl, g_ql; unsigned char g_ka, g_kc, g_qa, g_qc;    /* the key of the operation, an arbitrary other key q */
+void *g_v;                                                    /* value stored by put                                 */
+size_t g_i, g_j;                                              /* arbitrary slot indices of the post-state            */
+size_t g_len0;
+bool g_present; void *g_old, *g_qold;                         /* lookup(k), lookup(q) before                         */
+void *g_slotval;                                              /* *slot as returned by mapput, before the store       */
+size_t g_slotidx; bool g_slotok;
+void *g_qnew;                                                 /* lookup(q) after                                     */
+size_t g_count1;
+unsigned long g_khash;
+bool g_wrapped;
 
-	__CPROVER_assume(l <= 2 && v != 0);
-	m_kb[s][0] = b0; m_kb[s][1] = b1; m_kl[s] = l;
-	old = model_get(l, b0, b1);
-	mapkey(&k, m_kb[s], l);
-	__CPROVER_assert(k.str == (void *)m_kb[s] && k.len == l, "mapkey sets str and len");
-	slot = mapput(h, &k);
-	__CPROVER_assert(slot != 0 && slot >= h->vals && slot < h->vals + h->cap, "mapput returns a slot of the value array");
-	__CPROVER_assert(*slot == old, "mapput: the slot holds the value bound so far (NULL for a new key)");
-	*slot = (void *)(uintptr_t)v;
-	m_kv[s] = (void *)(uintptr_t)v;
-	m_n = s + 1;
-	__CPROVER_assert(h->len == model_distinct(), "len == number of distinct keys");
-	__CPROVER_assert(h->cap >= 1 && (h->cap & (h->cap - 1)) == 0, "capacity stays a power of two");
-	__CPROVER_assert(h->len <= h->cap / 2 + 1 && h->len < h->cap, "load: at most cap/2+1 entries, so at least one empty slot (every probe sequence ends)");
-	home = k.hash & (h->cap - 1);
-	if ((size_t)(slot - h->vals) < home)
-		g_wrapped = true;
-	if (h->cap != cap0)
-		g_grew = true;
+#define H (&t_map)
+#define OCC(j)    (H->keys[j].str != 0)
+#define KLEN(j)   (H->keys[j].len)
+#define KA(j)     (KLEN(j) >= 1 ? KB(H->keys[j], 0) : 0)
+#define KC(j)     (KLEN(j) >= 2 ? KB(H->keys[j], 1) : 0)
+#define MASK      (H->cap - 1)
+/* g_i lies in the cyclic interval [home(g_j), g_j) */
+#define BETWEEN   (((g_i - H->keys[g_j].hash) & MASK) < ((g_j - H->keys[g_j].hash) & MASK))
+
+#define PRE(X) \
+	X(g_kl <= 2 && g_ql <= 2) \
+	X(g_len0 == H->len && H->cap == CAP) \
+	X(g_i < MAXCAP && g_j < MAXCAP)
+
+#if V_PUT
+static void **
+op(struct map *h, struct mapkey *k)
+{
+	void **slot = mapput(h, k);
+
+	g_slotok = slot >= h->vals && slot < h->vals + h->cap;
+	g_slotidx = g_slotok ? (size_t)(slot - h->vals) : 0;
+	g_slotval = g_slotok ? *slot : 0;
+	if (g_slotok)
+		*slot = g_v;                                   /* what every client does with the result */
+	g_qnew = lookup_now(g_ql, g_qa, g_qc);
+	g_count1 = count_now();
+	g_wrapped = g_slotok && g_slotidx < (k->hash & (h->cap - 1));
+	return slot;
 }
 
-static void
-step_get(size_t l, unsigned char b0, unsigned char b1)
+#define GROWN (CAP / 2 < g_len0)
+#define POST(X) \
+	/* result: a slot of the value array whose key is byte-equal to k */ \
+	X(g_slotok) \
+	X(OCC(g_slotidx) && BEQ(KLEN(g_slotidx), KA(g_slotidx), KC(g_slotidx), g_kl, g_ka, g_kc)) \
+	/* it holds the value bound so far; NULL for a new key */ \
+	X(g_slotval == (g_present ? g_old : (void *)0)) \
+	/* dictionary semantics for an arbitrary key q, also across the rehash */ \
+	X(g_qnew == (BEQ(g_ql, g_qa, g_qc, g_kl, g_ka, g_kc) ? g_v : g_qold)) \
+	/* INV is re-established.  I1 */ \
+	X(H->len == g_len0 + !g_present) \
+	X(H->len == g_count1) \
+	X(H->cap == (GROWN ? MAXCAP : CAP)) \
+	X(H->len <= H->cap / 2 + 1 && H->len < H->cap) \
+	/* I2 for an arbitrary slot g_j */ \
+	X(IMP(g_j < H->cap && OCC(g_j), KLEN(g_j) <= 2 && uf_peek(KLEN(g_j), KA(g_j), KC(g_j), H->keys[g_j].hash))) \
+	/* I3 for arbitrary slots g_j, g_i */ \
+	X(IMP(g_j < H->cap && g_i < H->cap && OCC(g_j) && BETWEEN, OCC(g_i))) \
+	/* I4 */ \
+	X(IMP(g_j < H->cap && g_i < H->cap && g_i != g_j && OCC(g_i) && OCC(g_j), !BEQ(KLEN(g_i), KA(g_i), KC(g_i), KLEN(g_j), KA(g_j), KC(g_j)))) \
+	/* no reallocation unless the table was more than half full */ \
+	X(IMP(!GROWN, H->keys == t_keys0 && H->vals == t_vals0)) \
+	CANARY(X, !(GROWN && g_wrapped && !g_present))
+#else
+static void *
+op(struct map *h, struct mapkey *k)
 {
-	static unsigned char qb[2];
-	struct mapkey k;
-	void *r;
+	void *r = mapget(h, k);
 
-	__CPROVER_assume(l <= 2);
-	qb[0] = b0; qb[1] = b1;
-	mapkey(&k, qb, l);
-	r = mapget(&t_map, &k);
-	__CPROVER_assert(r == model_get(l, b0, b1), "mapget returns the last value put under a byte-equal key, else NULL");
+	g_qnew = lookup_now(g_ql, g_qa, g_qc);
+	g_count1 = count_now();
+	return r;
 }
 
-#define STEP(s) do { \
-	IN(size_t, in_pl##s); IN(unsigned char, in_pa##s); IN(unsigned char, in_pb##s); IN(unsigned char, in_pv##s); \
-	IN(size_t, in_ql##s); IN(unsigned char, in_qa##s); IN(unsigned char, in_qb##s); \
-	step_put(s, in_pl##s, in_pa##s, in_pb##s, in_pv##s); \
-	step_get(in_ql##s, in_qa##s, in_qb##s); \
+#define POST(X) \
+	X(HRET == (g_present ? g_old : (void *)0)) \
+	/* the table is unchanged */ \
+	X(H->len == g_len0 && H->cap == CAP && H->keys == t_keys0 && H->vals == t_vals0) \
+	X(g_qnew == g_qold && g_count1 == g_len0) \
+	X(IMP(g_j < CAP, OCC(g_j) == t_pre[g_j].occ && H->keys[g_j].hash == t_pre[g_j].hash && KLEN(g_j) == t_pre[g_j].len && H->vals[g_j] == t_pre[g_j].val)) \
+	CANARY(X, !(g_present && g_len0 == 3 && (g_khash & (CAP - 1)) == CAP - 1))
+#endif
+
+#define SLOT(j) do { \
+	IN(bool, in_o##j); IN(size_t, in_l##j); IN(unsigned char, in_a##j); IN(unsigned char, in_c##j); \
+	IN(unsigned long, in_h##j); IN(unsigned long, in_v##j); \
+	t_pre[j].occ = in_o##j; t_pre[j].len = in_l##j; t_pre[j].b0 = in_a##j; t_pre[j].b1 = in_c##j; \
+	t_pre[j].hash = in_h##j; t_pre[j].val = (void *)(uintptr_t)in_v##j; \
+	if (in_o##j) { \
+		__CPROVER_assume(in_l##j <= 2); \
+		g_uf[g_ufn].len = in_l##j; g_uf[g_ufn].b0 = in_l##j >= 1 ? in_a##j : 0; g_uf[g_ufn].b1 = in_l##j >= 2 ? in_c##j : 0; \
+		g_uf[g_ufn].val = in_h##j; ++g_ufn; \
+	} \
 } while (0)
 
 void
 harness(void)
 {
-	mapinit(&t_map, V_CAP);
-	__CPROVER_assert(t_map.len == 0 && t_map.cap == V_CAP, "mapinit");
-	STEP(0);
-	STEP(1);
-#if NOPS >= 3
-	STEP(2);
+	struct map *h = &t_map;
+	struct mapkey key, *k = &key;
+
+	SLOT(0); SLOT(1); SLOT(2); SLOT(3);
+#if CAP >= 8
+	SLOT(4); SLOT(5); SLOT(6); SLOT(7);
 #endif
-#if NOPS >= 4
-	STEP(3);
+	ING(size_t, g_kl); ING(unsigned char, g_ka); ING(unsigned char, g_kc);
+	ING(size_t, g_ql); ING(unsigned char, g_qa); ING(unsigned char, g_qc);
+	IN(unsigned long, in_v);
+	ING(size_t, g_i); ING(size_t, g_j);
+
+	build();
+	__CPROVER_assume(inv_pre());
+	__CPROVER_assume(g_kl <= 2);
+#ifdef V_GROW
+	/* case split: table at most half full (insert in place) / more than half full (doubles, rehash) */
+	__CPROVER_assume((CAP / 2 < h->len) == V_GROW);
 #endif
-#if NOPS >= 5
-	STEP(4);
-#endif
-#if NOPS >= 6
-	STEP(5);
-#endif
-#ifdef VERIF_CANARY
-	__CPROVER_assert(!(g_wrapped && g_grew), "CANARY: no run both grows the table and wraps a probe sequence around its end");
+	g_v = (void *)(uintptr_t)in_v;
+	g_len0 = h->len;
+	g_old = lookup_pre(g_kl, g_ka, g_kc);
+	g_present = g_found_pre;
+	g_qold = lookup_pre(g_ql, g_qa, g_qc);
+	t_kb[CAP][0] = g_ka; t_kb[CAP][1] = g_kc;
+	mapkey(k, t_kb[CAP], g_kl);
+	__CPROVER_assert(k->str == (void *)t_kb[CAP] && k->len == g_kl, "mapkey sets str and len");
+	g_khash = k->hash;
+#if V_PUT
+	HCALLR(void **, PRE, POST, op(h, k));
+#else
+	HCALLR(void *, PRE, POST, op(h, k));
 #endif
 }
